@@ -1,6 +1,7 @@
 ----------------------------- MODULE SyncHB_MC -----------------------------
 EXTENDS SyncHB
-CONSTANTS SysName, IsMin, MRA, Vals, Faults, MaxRun, MaxFaults, DE, PR
+CONSTANTS SysName, IsMin, MRA, Vals, Faults, MaxRun, MaxFaults, DE, PR,
+          WithNaN     \* trials may report "not a number" (the value NaN) without failing
 \* rung systems: sequences of brackets, each a sequence of <<size, level>> (cfg files cannot hold sequences)
 SysTable ==
   [ sh31   |-> << << <<3, 1>>, <<1, 3>> >> >>,                                         \* one bracket, successive halving
@@ -15,7 +16,7 @@ SysTable ==
     \* fewer brackets per iteration than rung levels (num_brackets_per_iteration = 1, 2 of 3)
     de321one |-> << << <<3, 1>>, <<2, 2>>, <<1, 4>> >> >>,
     de321two |-> << << <<3, 1>>, <<2, 2>>, <<1, 4>> >>, << <<2, 2>>, <<1, 4>> >> >> ]
-Conf == [sys |-> SysTable[SysName], min |-> IsMin, mra |-> MRA, vals |-> Vals, faults |-> Faults, de |-> DE, pr |-> PR]
+Conf == [sys |-> SysTable[SysName], min |-> IsMin, mra |-> MRA, vals |-> Vals \cup (IF WithNaN THEN {NaN} ELSE {}), faults |-> Faults, de |-> DE, pr |-> PR]
 Init == InitCommon(Conf)
 Spec == Init /\ [][Next]_vars
 Workers == /\ Cardinality({t \in Trials : st[t] = "running"}) <= MaxRun
